@@ -246,7 +246,7 @@ func (m *StringifiedMessage) encode(d *Decoder, sb *strings.Builder, tagType byt
 
 func writeEscapeStr(sb *strings.Builder, str string) {
 	// The empty string, and a string the scanner would take for the start of a number, must be quoted.
-	needQuote := str == "" || isNumber(str[0]) || str[0] == '-' || str[0] == '+'
+	needQuote := str == "" || isNumber(str[0]) || str[0] == '-' || str[0] == '+' || str[0] == '.'
 	for _, v := range []byte(str) {
 		if !isAllowedInUnquotedString(v) {
 			needQuote = true
